@@ -4,6 +4,69 @@ use crate::core::*;
 
 pub struct P;
 
+fn apply_ops(b: &mut fst::raw::Builder<Vec<u8>>, ops: &[Op]) {
+    for o in ops {
+        let _ = match o {
+            Op::Insert(k, v) => b.insert(k, *v),
+            Op::Add(k) => b.add(k),
+        };
+    }
+}
+fn whole_build(ty: u64, ops: &[Op]) -> Option<Vec<u8>> {
+    let mut b = fst::raw::Builder::new_type(Vec::new(), ty).ok()?;
+    apply_ops(&mut b, ops);
+    b.into_inner().ok()
+}
+/// Thread A (fresh) creates a builder and fills the first part; thread B (fresh) receives it, fills the
+/// rest and finishes it, then makes two builds of its own and creates a third builder that goes back to
+/// A's side (this thread). Every result must be `expect`. Returns the name of the first one that is not.
+fn migrating_builds_differ(ty: u64, ops: &[Op], expect: &Vec<u8>) -> Option<String> {
+    use std::sync::mpsc::channel;
+    let cuts = [0usize, ops.len() / 2, ops.len()];
+    for (ci, &cut) in cuts.iter().enumerate() {
+        let (to_b, from_a) = channel::<fst::raw::Builder<Vec<u8>>>();
+        let (to_a, from_b) = channel::<fst::raw::Builder<Vec<u8>>>();
+        let r: Option<String> = std::thread::scope(|s| {
+            let a = s.spawn(move || {
+                let mut b = fst::raw::Builder::new_type(Vec::new(), ty).unwrap();
+                apply_ops(&mut b, &ops[..cut]);
+                to_b.send(b).unwrap();
+                // A's own build after handing one away
+                whole_build(ty, ops)
+            });
+            let bth = s.spawn(move || {
+                let mut b = from_a.recv().unwrap();
+                apply_ops(&mut b, &ops[cut..]);
+                let moved = b.into_inner().ok();
+                let own1 = whole_build(ty, ops);
+                let own2 = whole_build(ty, ops);
+                let back = fst::raw::Builder::new_type(Vec::new(), ty).unwrap();
+                to_a.send(back).unwrap();
+                (moved, own1, own2)
+            });
+            let a_own = a.join().unwrap();
+            let (moved, own1, own2) = bth.join().unwrap();
+            let mut back = from_b.recv().unwrap();
+            apply_ops(&mut back, ops);
+            let back_bytes = back.into_inner().ok();
+            let here = whole_build(ty, ops);
+            for (name, got) in [("moved A->B", moved), ("B own 1st", own1), ("B own 2nd", own2), ("A own", a_own), ("created on B, finished here", back_bytes), ("own after finishing B's", here)] {
+                if got.as_ref() != Some(expect) {
+                    return Some(format!("{}, handed over after {} of {} calls", name, cut, ops.len()));
+                }
+            }
+            None
+        });
+        if r.is_some() {
+            return r;
+        }
+        if ops.is_empty() && ci == 0 {
+            break;
+        }
+    }
+    None
+}
+
 fn all_paths_bytes(ty: u64, ops: &[Op]) -> Result<Vec<u8>, String> {
     let mut reference: Option<(String, Option<Vec<u8>>)> = None;
     for (sem, fe) in applicable_front_ends(ops, true, ty) {
@@ -149,6 +212,13 @@ impl Prop for P {
         if !same {
             x = "bytes differ between threads".into();
         }
+        // builders that CHANGE threads: created on one thread, filled and finished on another, followed by
+        // builds of the receiving thread's own (a builder is Send; whatever per-thread state the crate
+        // keeps must not leak from one build into the next)
+        if let Some(which) = migrating_builds_differ(ty, &ops, &bytes) {
+            x = format!("bytes differ for a builder that changed threads ({})", which);
+        }
+        crate::common::xcount("c15_migrating_builders");
         let f = fst::raw::Fst::new(bytes.clone()).unwrap();
         let kvs = f.stream().into_byte_vec();
         format!("S:r=ok;c={};len={}\tM:bytes={};bw=na;st=na\tX:{}", fmt_kvs(&kvs), f.len(), hex(&bytes), x)
@@ -186,9 +256,13 @@ impl Prop for P {
                 return vec![("cross_process_determinism".into(), false, "child process failed".into())];
             }
             let got = std::fs::read_to_string(&of).unwrap_or_default();
-            if got.lines().map(|l| l.to_string()).collect::<Vec<_>>() != tiny_inproc {
+            let gl: Vec<String> = got.lines().map(|l| l.to_string()).collect();
+            if gl != tiny_inproc {
                 let _ = std::fs::remove_dir_all(&dir);
-                return vec![("cross_process_determinism".into(), false, format!("a build under a tiny node cache gives other bytes in child process {} than in this process ({} builds compared)", i, tiny.len()))];
+                // name the input: the first case whose result line differs between the two processes
+                let j = (0..tiny.len()).find(|&j| gl.get(j) != tiny_inproc.get(j)).unwrap_or(0);
+                let cut = |t: &str| t.chars().take(600).collect::<String>();
+                return vec![("cross_process_determinism".into(), false, format!("a build under a tiny node cache gives other bytes in child process {} than in this process ({} builds compared); failing input: {} ; this process: {} ; child process: {}", i, tiny.len(), cut(&tiny[j]), cut(tiny_inproc.get(j).map(|x| x.as_str()).unwrap_or("-")), cut(gl.get(j).map(|x| x.as_str()).unwrap_or("-"))))];
             }
         }
         let cf = dir.join("cases.txt");
@@ -205,6 +279,16 @@ impl Prop for P {
         let inproc: Vec<String> = cases.iter().map(|c| self.execute(c)).collect();
         let ok = outs.iter().all(|o| o.lines().map(|l| l.to_string()).collect::<Vec<_>>() == inproc);
         let _ = std::fs::remove_dir_all(&dir);
-        vec![("cross_process_determinism".into(), ok, format!("{} builds x 3 child processes compared with the in-process result", cases.len()))]
+        let mut detail = format!("{} builds x 3 child processes compared with the in-process result", cases.len());
+        if !ok {
+            for o in &outs {
+                let ol: Vec<&str> = o.lines().collect();
+                if let Some(j) = (0..cases.len()).find(|&j| ol.get(j).copied() != inproc.get(j).map(|x| x.as_str())) {
+                    detail += &format!("; failing input: {}", cases[j].chars().take(600).collect::<String>());
+                    break;
+                }
+            }
+        }
+        vec![("cross_process_determinism".into(), ok, detail)]
     }
 }
